@@ -1,6 +1,6 @@
 (** C18 - Listen mode never transmits (and hears the same: see Proofs for the reception side,
     which does not read listen_mode, blocksize, stmin or padding). *)
-From IsoTp Require Import Base.Prelude Model.Micro Spec.ConfigSpec Proofs.Inv Proofs.FsmProps.
+From IsoTp Require Import Base.Prelude Model.Micro Spec.ConfigSpec Proofs.Inv Proofs.FsmProps Proofs.DuplexP Proofs.ListenP.
 
 (** A transmit pass of a listener with nothing to send emits no frame, whatever Flow Control
     the reception side requested. *)
@@ -15,5 +15,21 @@ Theorem C18_silent : forall c ms, params_ok (c_p c) -> p_listen (c_p c) = true -
   tx_quiet (fst (mrun c s ms)) /\ forall f, ~ In (ETx f) (snd (mrun c s ms)).
 Proof. exact listen_run_silent. Qed.
 
+(** "Hears the same".  Reception does not depend on listen mode nor on any transmit parameter: *)
+Theorem C18_same_reception : forall c c' s f, same_rx_cfg c c' -> process_rx c' s f = process_rx c s f.
+Proof. exact process_rx_cfg. Qed.
+
+(** A listener [c'] and a receiver [c] with the same reception parameters, taken through the same
+    frames, timeout checks, transmit passes, recv() calls and clock ticks from states with the same
+    reception view (DuplexP.rxv: reception state, buffer, announced length, sequence number, block
+    counter, N_Cr timer, reception queue, pending flow control), end with the same reception view:
+    same deliveries, same reception in progress - whatever their transmit sides do. *)
+Theorem C18_hears_the_same : forall c c', same_rx_cfg c c' -> forall ms s1 s2,
+  Forall rx_relevant ms -> rxv s1 = rxv s2 ->
+  rxv (fst (mrun c' s1 ms)) = rxv (fst (mrun c s2 ms)).
+Proof. exact hears_the_same. Qed.
+
 Print Assumptions C18_pass_silent.
 Print Assumptions C18_silent.
+Print Assumptions C18_same_reception.
+Print Assumptions C18_hears_the_same.
